@@ -35,6 +35,13 @@ CHECKS = {
         technique="contract-based deductive verification (ast->z3 VCs, loop invariant over a symbolic permutation), bounded run-time cross-check",
         design_ref="DESIGN 3 C32",
     ),
+    "C22": dict(
+        level="proof",
+        text="Deductive: the five InvertibleSet operators (& | - ^ ~, each against an InvertibleSet and against a plain set), to_my_space and _make_set are symbolically executed from the real source; proved for all sets: the result's instance is the set-algebra result, its universe (full_space) is the receiver's, complement is taken within that universe, and the representation invariant instance <= full_space is preserved -- so every value of a set expression (Python applies exactly these dunders) is the set-algebra value. For dictionaries keyed by set expressions, the evaluation loop of eval_set_expression_dict (slice) is proved to keep `Other` = All minus everything evaluated so far, so a key `Other` (evaluated last) makes the keys cover All and overlaps no other key; the overlap check (slice, itertools.combinations modelled as all index pairs) is proved to let only pairwise-disjoint keys through. NOT proved: that the named sets built in Einsum._eval_expressions (Inputs, Outputs, Intermediates, Shared, Persistent, tensor names; all with full_space = the Einsum's tensors) are what the statement says -- that dict literal is outside the engine's subset and is covered by the bounded cross-check only (random expression trees over all named sets evaluated on real Specs).",
+        note=_TB + "Python eval / operator dispatch and frozenset algebra assumed; pydantic construction stores keyword arguments; eval_set_expression of a key assumed to return an InvertibleSet over the table's universe (a plain symbol returns its table entry); re.findall for `Other` outside the slices; named-set construction bounded only.",
+        technique="contract-based deductive verification (ast->z3 VCs over a heap of set-valued fields, slices with loop invariants); bounded run-time cross-check for the named-set table",
+        design_ref="DESIGN 3 C22",
+    ),
     "C29": dict(
         level="proof",
         text="Deductive: Renames.get_renames_for_einsum (whole function, four loops with invariants), the rename-merge statement range of Einsum._eval_expressions (slice located by source anchors on every run), the by-name lookup of EvalableList.__getitem__ (slice; it is the meaning of `name in table` / `table[name]`) and Rename._eval_expressions (expected_count rejection) are symbolically executed from the real source over a Burstall heap; proved for every rename table: Einsum-local names resolve to their own source, names under the Einsum's top-level entry resolve to that source, default-only names resolve to the default source, nothing else is defined, a mismatching expected_count never returns normally. Genuine defect F7 was repaired in /repo (fix: commit); the bounded cross-check evaluates random real Specs.",
